@@ -115,3 +115,17 @@ def c13_bypass_early_return_reorders(v, case):
     witnesses where the output is a permutation of the input, in runs that never used the pump/drain states."""
     return bool(v.get("bypass") and (v.get("ratio") or 1) > 1 and v.get("kind") == "output-stream-differs"
                 and v.get("output_is_permutation_of_input") and not v.get("visited_pump_or_drain_state"))
+
+
+# ------------------------------------------------------------------------------------------------ C14
+def c14_addr_mask_in_bytes(v, case):
+    """BIST generator/checker compute addr_mask = (end - base) - 1 in *bytes* but apply it to the word index: with ports
+    wider than one byte, random addresses and sequential runs longer than the range reach up to word_bytes times beyond
+    `end` (the pinned test test_bist '32bit_masked' asserts this behaviour).  Accepts only out-of-range writes whose word
+    offset from base is still below the byte count of the range (what that mask lets through)."""
+    if v.get("kind") != "generator-write-outside-range":
+        return False
+    off, rb, wb = v.get("offset_words"), v.get("range_bytes"), v.get("word_bytes")
+    if off is None or rb is None or wb is None or wb <= 1:
+        return False
+    return (rb // wb) <= off < rb
